@@ -369,15 +369,28 @@ def u_ts_cached(ctx):
         st = State()
         st.pc += [tw >= 1, th >= 1, cw_ >= 1, chh >= 1]
         st.ghost["calls"] = z3.IntVal(0)
-        eng.genv["get_terminal_size"] = Fn(lambda e, s, a, k: [(Rec("terminal_size", {"columns": tw, "lines": th}), s)])
+        st.ghost.update(ts_reads=0, last_read=None, read_before_body=None)
+        BODY = z3.Int("body_result")
+
+        def get_ts(e, s, a, k):
+            # the terminal may be resized between two reads of its size: the first read gives (tw, th), every later one any size
+            s = e.fork(s)
+            n = s.ghost["ts_reads"] = s.ghost["ts_reads"] + 1
+            a_, b_ = (tw, th) if n == 1 else (z3.Int(f"tw_read{n}"), z3.Int(f"th_read{n}"))
+            if n > 1:
+                s.pc += [a_ >= 1, b_ >= 1]
+            s.ghost["last_read"] = (a_, b_)
+            return [(Rec("terminal_size", {"columns": a_, "lines": b_}), s)]
+        eng.genv["get_terminal_size"] = Fn(get_ts)
 
         def func(e, s, a, k):
             s = e.fork(s)
             mon.body_call(e, s)
+            s.ghost["read_before_body"] = s.ghost["last_read"]        # the size in force, as far as the wrapper knows, when the body starts
             s.ghost["calls"] = s.ghost["calls"] + 1
             e.raise_(ExcVal("Boom"), e.fork(s))
             mon.body_done(s)
-            return [(F(tw, th), s)]
+            return [(BODY, s)]
         entry = (cval, Rec("terminal_size", {"columns": cw_, "lines": chh})) if has_entry else None
 
         def entry_size(c):
@@ -401,9 +414,11 @@ def u_ts_cached(ctx):
 
         def stored(s):
             c = s.frames[0]["cache"]
-            return False if c is None else And(Eq(c[0], F(tw, th)), Eq(entry_size(c)[0], tw), Eq(entry_size(c)[1], th))
+            return False if c is None else Eq(c[0], BODY)
         mon = Monitor(eng, st, havoc, absent, stored)
         st.env.update(cache=entry, lock=mon.lock, func=Fn(func), get_terminal_size=eng.genv["get_terminal_size"])
+        # (the result is filed under the size read BEFORE the body ran: if the terminal is resized while the body runs, the next call
+        # sees a different size and computes again - filing it under a size read afterwards would serve the old value for the new size)
         # the wrapper is a closure over `cache`: run it one frame deeper so that `nonlocal cache` resolves
         st.frames.append({"args": (), "kwargs": st.new("dict", {"@items": {}}), "__nonlocal__": {"cache"}})
         outs = run_function(eng, wrapper, st)
@@ -412,8 +427,10 @@ def u_ts_cached(ctx):
             c = s.frames[0]["cache"]
             same = And(Eq(cw_, tw), Eq(chh, th)) if has_entry else False
             if kind == "return":
-                goal = If(same, And(calls == 0, Eq(val, cval)), And(calls == 1, Eq(val, F(tw, th)), c is not None and And(Eq(c[0], F(tw, th)), Eq(c[1], (tw, th)))))
-                eng.oblige("body-runs-iff-no-entry-or-terminal-size-changed", s, goal, kind="post", replay="C15.ts_cached")
+                rb = s.ghost["read_before_body"]
+                filed = (c is not None and rb is not None) and And(Eq(c[0], BODY), Eq(entry_size(c)[0], rb[0]), Eq(entry_size(c)[1], rb[1]))
+                goal = If(same, And(calls == 0, Eq(val, cval)), And(calls == 1, Eq(val, BODY), filed))
+                eng.oblige("body-runs-iff-no-entry-or-terminal-size-changed;result-filed-under-the-size-read-before-the-body-ran", s, goal, kind="post", replay="C15.ts_cached")
             else:
                 eng.oblige(f"failed-call:{val.cls}", s, And(val.cls == "Boom", Not(same), calls == 1,
                                                             (c is entry)), kind="raise", replay="C15.ts_cached")
